@@ -58,20 +58,20 @@ Qed.
 Lemma dedup_nodes_eq l : map enode (dedup l) = map enode (keep_last l).
 Proof. unfold dedup. rewrite map_map. reflexivity. Qed.
 
-Lemma relabel_node td x : enode (relabel td x) = enode x.
-Proof. unfold relabel. destruct (alookup _ td); reflexivity. Qed.
+Lemma relabel_node tn td x : enode (relabel tn td x) = enode x.
+Proof. unfold relabel, relabel_pinned. destruct (low_get tn _); [reflexivity|]. destruct (alookup _ td); reflexivity. Qed.
 
-Lemma topo_finish_nodes L dp q : In q (map enode (topo_finish L dp)) <-> In q (map enode dp).
+Lemma topo_finish_nodes fx L dp q : In q (map enode (topo_finish fx L dp)) <-> In q (map enode dp).
 Proof.
   unfold topo_finish. rewrite dedup_nodes_eq, keep_last_nodes.
   rewrite !in_map_iff. split.
   - intros [x [E H]]. rewrite entry_sort_In in H. apply in_map_iff in H as [y [E2 H]].
     exists y. subst. rewrite relabel_node. auto.
-  - intros [x [E H]]. exists (relabel (depth_by_name L 0 (S (length L)) []) x). rewrite relabel_node. split; [exact E|].
+  - intros [x [E H]]. eexists (relabel _ (depth_by_name L 0 (S (length L)) []) x). rewrite relabel_node. split; [exact E|].
     rewrite entry_sort_In. apply in_map. exact H.
 Qed.
 
-Lemma topo_finish_NoDup L dp : NoDup (map enode (topo_finish L dp)).
+Lemma topo_finish_NoDup fx L dp : NoDup (map enode (topo_finish fx L dp)).
 Proof. unfold topo_finish. rewrite dedup_nodes_eq. apply keep_last_NoDup. Qed.
 
 (* ------------------------------------------------------------ the walk from the top product *)
@@ -129,9 +129,9 @@ Proof.
   eexists. split; [reflexivity|]. intros q. rewrite drop_top_nodes, H. reflexivity.
 Qed.
 
-Lemma listing_topological cmp w top fuel l :
+Lemma listing_topological fx cmp w top fuel l :
   length w < fuel ->
-  dependent_products_with cmp fuel w top true = Ok l ->
+  dependent_products_with fx cmp fuel w top true = Ok l ->
   (forall q, In q (map enode l) <-> q <> top /\ reach_plus w top q) /\ NoDup (map enode l).
 Proof.
   intros Hf. unfold dependent_products_with.
@@ -260,15 +260,15 @@ Lemma users_total_ok idx x ov :
              length us = length (consumers idx x ov).
 Proof. unfold users. apply psort_total. exact consumer_cmp_total. Qed.
 
-Lemma listings_with_spec cmp fuel w ps idx :
-  listings_with cmp fuel w ps = Ok idx ->
+Lemma listings_with_spec fx cmp fuel w ps idx :
+  listings_with fx cmp fuel w ps = Ok idx ->
   forall u l, In (u, l) idx <->
-              In u ps /\ dependent_products_with cmp fuel w (fst u, Some (snd u), true) true = Ok l.
+              In u ps /\ dependent_products_with fx cmp fuel w (fst u, Some (snd u), true) true = Ok l.
 Proof.
   revert idx. induction ps as [|[n v] r IH]; intros idx; simpl.
   - intros E. inversion E. simpl. tauto.
-  - destruct (dependent_products_with cmp fuel w (n, Some v, true) true) as [l0|] eqn:E0; [|discriminate].
-    destruct (listings_with cmp fuel w r) as [ls|]; [|discriminate].
+  - destruct (dependent_products_with fx cmp fuel w (n, Some v, true) true) as [l0|] eqn:E0; [|discriminate].
+    destruct (listings_with fx cmp fuel w r) as [ls|]; [|discriminate].
     intros E. inversion E. subst. intros u l. simpl. rewrite (IH ls eq_refl). split.
     + intros [H | H]; [inversion H; subst; simpl; auto | tauto].
     + intros [[H | H] D]; [subst; simpl in D; left; congruence | right; auto].
@@ -296,7 +296,7 @@ Proof.
   assert (Hm : In y (map cuser us) <-> In y (map cuser (consumers idx x ov))).
   { rewrite !in_map_iff. split; intros [c [Q I]]; exists c; (split; [exact Q | apply H, I]). }
   rewrite Hm, consumers_users. unfold uses_index in Hi.
-  pose proof (listings_with_spec _ _ _ _ _ Hi) as Hs. split.
+  pose proof (listings_with_spec _ _ _ _ _ _ Hi) as Hs. split.
   - intros [l [I [e [Ie Mk]]]]. apply Hs in I as [I1 I2]. split; [exact I1|]. exists l. split; [exact I2|].
     exists (enode e). split; [apply in_map, Ie | apply key_matches_spec, Mk].
   - intros [I1 [l [I2 [q [Iq Mq]]]]]. exists l. split; [apply Hs; auto|].
@@ -311,19 +311,19 @@ Lemma uses_inverse_reach fuel w idx x ov us y :
 Proof.
   intros Hf Hi Hu. rewrite (uses_inverse_listing fuel w idx x ov us y Hi Hu). split.
   - intros [I [l [D [q [Iq Mq]]]]]. split; [exact I|]. exists q.
-    destruct (listing_topological _ _ _ _ _ Hf D) as [HL _]. apply HL in Iq. tauto.
+    destruct (listing_topological _ _ _ _ _ _ Hf D) as [HL _]. apply HL in Iq. tauto.
   - intros [I [q [Ne [R Mq]]]]. split; [exact I|].
-    pose proof (listings_with_spec _ _ _ _ _ Hi) as Hs.
+    pose proof (listings_with_spec _ _ _ _ _ _ Hi) as Hs.
     apply in_map_iff in I as [[u es] [Eu Iw]]. simpl in Eu. subst u.
     (* the index holds a listing for every declared product *)
-    assert (Hex : forall ps idx0, listings_with node_cmp fuel w ps = Ok idx0 -> forall u, In u ps -> exists l, In (u, l) idx0).
+    assert (Hex : forall ps idx0, listings_with true node_cmp fuel w ps = Ok idx0 -> forall u, In u ps -> exists l, In (u, l) idx0).
     { induction ps as [|[n v] r IH]; intros idx0; simpl; [intros _ u []|].
-      destruct (dependent_products_with node_cmp fuel w (n, Some v, true) true) as [l0|]; [|discriminate].
-      destruct (listings_with node_cmp fuel w r) as [ls|] eqn:El; [|discriminate].
+      destruct (dependent_products_with true node_cmp fuel w (n, Some v, true) true) as [l0|]; [|discriminate].
+      destruct (listings_with true node_cmp fuel w r) as [ls|] eqn:El; [|discriminate].
       intros Q u [<- | Iu]; inversion Q; subst.
       - exists l0. left. reflexivity.
       - destruct (IH ls eq_refl u Iu) as [l Il]. exists l. right. exact Il. }
     destruct (Hex _ _ Hi y) as [l Il]; [apply in_map_iff; exists (y, es); auto|].
     apply Hs in Il as [_ D]. exists l. split; [exact D|]. exists q. split; [|exact Mq].
-    destruct (listing_topological _ _ _ _ _ Hf D) as [HL _]. apply HL. auto.
+    destruct (listing_topological _ _ _ _ _ _ Hf D) as [HL _]. apply HL. auto.
 Qed.
